@@ -83,6 +83,16 @@ CHECKS = {
    'Every unit impulse and pure tone for N=2..2^12(2^14), all +-1 vectors N<=16, all vectors over {0,1,-1,i} N<=8, fillers to 2^16(2^20), inverse(forward)=identity, constructor on every N<=8192 and around every power of two to 2^20(2^22, 2^27), refusals, wrong-length slices.',
    'linearity extends the basis result to all inputs up to floating-point accumulation',
    "DESIGN.md section 3 C19"),
+ "C13": ("E1-vsched + E2", "model_checking",
+   "stateless deviation-bounded exploration of the instrumented rddetector main() (walker, workers, result writer) with the report judged at process exit; header-as-specification column check of every scale's worker; end-to-end binary runs",
+   "The real main() of tools/rddetector (instrumented from the working tree; channels, WaitGroup, go statements, file writes as scheduling points) runs with os.Args set on F=1..3 sample files and n=1..3(64) workers; every schedule within the deviation bound must end with a report = header + exactly one complete row per .bin/.dat file with the right values. Every column of every scale (2E4, 1E6, 1E8) is compared with the library call its header label names on 8 (4) files; the built binary is run end to end on 1/5/33 files.",
+   "deviation bound 1 (2 in thorough for F<=2,n<=2); the 10^8 scale is exercised through its worker on 25000-byte files",
+   "DESIGN.md section 3 C13"),
+ "C20": ("E1-vsched + e2e", "model_checking",
+   "stateless deviation-bounded exploration of the instrumented rdgen main() over a real scratch file system with a deterministic random source; end-to-end binary runs followed by rddetector",
+   "The real main() of tools/rdgen runs with os.Args set in a scratch directory for s=1..4 files, W=1..3 writers and five output forms (default, relative, nested, absolute, existing); file operations and the random source's Read are scheduling points; at main's return the tree must hold exactly random0..random(s-1).bin of n/8 bytes, pairwise different, inside the requested directory and nothing elsewhere. End-to-end: built rdgen for s in {1,5,7,300} then rddetector must accept the directory as s samples of n bits.",
+   "deviation bound 1 (2 in thorough for s<=3, n=64); crypto/rand.Reader replaced by a deterministic never-repeating stream",
+   "DESIGN.md section 3 C20"),
 }
 
 NOT_YET = {
